@@ -189,15 +189,15 @@ def decl_token(docs, e):
 def universe_tags(st):
     """Features of the universe that the known findings are keyed on (computed from the spec state)."""
     f = set()
-    if "renlx" in (st["m2"]["use1"], st["p"]["use1"]):
+    clauses = (st["m2"]["use1"], st["p"]["use1"])
+    if "renlx" in clauses:
         f.add("feature:renameWithoutOnly")
     if st["m2"]["defpriv"] and st["m2"]["use1"] != "none":
         f.add("feature:defaultPrivateModuleUses")
     # paths along which module m1 is reached from the program: directly, through m2, from the internal procedure
     paths = [st["p"]["use1"] != "none", st["p"]["use2"] != "none" and st["m2"]["use1"] != "none", st["q"].get("use1", "none") != "none"]
-    second_path = sum(paths) >= 2
-    if "onlylx" in (st["m2"]["use1"], st["p"]["use1"]) and second_path:
-        f.add("feature:onlyRename+secondPathToSameModule")
+    if ("onlylx" in clauses or "renlx" in clauses) and sum(paths) >= 2:
+        f.add("feature:renameAndSecondPathToSameModule")
     if st["m2"]["use1"] in ("onlylx", "renlx") and not st["m2"]["defpriv"]:
         f.add("feature:moduleReexportsRenamedName")
     return f
